@@ -303,9 +303,24 @@ def run(ctx: Ctx, tier: str) -> Result:
                 res.fail(Finding("C19.ENV", f.qname, r.node, f.loc(r.node), "%s() does not return a list on every path" % k))
                 continue
             e = r.result
-            flat = False
-            if isinstance(e, ast.Call) and isinstance(e.func, ast.Attribute) and e.func.attr == "split":
-                flat = True
+
+            def _flat(e, depth=0):
+                if isinstance(e, ast.Call) and isinstance(e.func, ast.Attribute) and e.func.attr == "split":
+                    return True
+                if isinstance(e, (ast.List, ast.Tuple)) and all(not isinstance(x, (ast.List, ast.Tuple)) and not (isinstance(x, ast.Call) and isinstance(x.func, ast.Attribute) and x.func.attr == "split") for x in e.elts):
+                    return True
+                if isinstance(e, ast.Call) and isinstance(e.func, ast.Name) and e.func.id in ("list", "tuple") and len(e.args) == 1 and not e.keywords:
+                    return _flat(e.args[0], depth)
+                if isinstance(e, ast.Call) and depth < 2:
+                    # a splitting helper of the module: flat on each of its returns
+                    hs = [h for h in cm.functions.values() if norm(e.func) in (h.name, h.qname)]
+                    if len(hs) == 1:
+                        rets_ = [x for x in t.nodes_in(hs[0], ast.Return) if x.value is not None]
+                        return bool(rets_) and all(_flat(x.value, depth + 1) for x in rets_)
+                return False
+            flat = _flat(e)
+            if flat:
+                pass
             elif isinstance(e, ast.List) and all(not isinstance(x, (ast.List, ast.Tuple)) and not (isinstance(x, ast.Call) and isinstance(x.func, ast.Attribute) and x.func.attr == "split") for x in e.elts):
                 flat = True
             if flat:
@@ -427,6 +442,16 @@ def run(ctx: Ctx, tier: str) -> Result:
                                      prm_.arg, norm(d_), norm(n_)[:50])))
     if not nmd:
         res.ok("C19.CHAIN", {"no entry point has a mutable default for its configuration argument": len(entry_)})
+    # the classification of a file is worked out from the configuration in force at that hit: nothing about it is kept on the
+    # collector's class or module between hits (a per-file memo there answers for an earlier APP_ROOT / include / exclude)
+    from .common import process_wide_writes
+    fcs_ = [f_ for f_ in p.functions.values() if f_.module.name == "deep.processor.frame_collector"]
+    pw_ = process_wide_writes(ctx, fcs_)
+    for f_, n_, what_ in pw_[:3]:
+        res.fail(Finding("C19.FRAME", f_.qname, n_, f_.loc(n_), "`%s` keeps what was worked out for a file in %s, shared by every collector for the life of the process: after the "
+                         "settings change (another APP_ROOT, include / exclude list, a second agent) frames carry the short path and app-frame flag of the old ones" % (norm(n_)[:60], what_)))
+    if not pw_:
+        res.ok("C19.FRAME", {"the frame collector keeps nothing between hits on its class / module": len(fcs_)})
     return res
 
 
